@@ -11,9 +11,9 @@ import (
 )
 
 type reachIndex struct {
-	p          *Prog
-	addrTaken  map[string][]*ssa.Function // signature string -> functions used as values
-	implCache  map[string][]*ssa.Function
+	p         *Prog
+	addrTaken map[string][]*ssa.Function // signature string -> functions used as values
+	implCache map[string][]*ssa.Function
 }
 
 var reachIdx *reachIndex
